@@ -145,6 +145,13 @@ def run(c):
         scripts.append(dict(cap=6, block=False, retry=True, consumers=3,
                             steps=[St("start")] + [St("offer", r) for r in five] + [St("await", "w1"), St("await", "w2"), St("await", "w3"), St("release", "w2", "ok"),
                                    St("await", "w4"), St("release", "w1", "ok"), St("await", "w5"), St("crash"), St("start"), St("drain")]))
+        # the LAST request of the queue is in its retry back-off when the exporter is shut down: the retry sender is stopped
+        # first, the hand-off ends with the shutdown error, THEN the (now drained, idle) queue is shut down -- the request must
+        # still be stored for the next start (seeded change C01-9 'cleaned up' the dispatched list of a drained idle queue)
+        for nc, rs in ((1, ["w1"]), (2, ["w1"]), (2, ["w1", "w2"]), (3, ["w1", "w2", "w3"])):
+            scripts.append(dict(cap=4, block=False, retry=True, consumers=nc,
+                                steps=[St("start")] + [St("offer", r) for r in rs] + [St("await", r) for r in rs] +
+                                      [St("release", r, "transient") for r in rs] + [St("shutdown"), St("await_shutdown"), St("start"), St("drain")]))
         c.log("generated %d distinct scripts" % len(scripts))
         todo = None
 
